@@ -44,9 +44,12 @@ AppActs == {"node-application-execute", "node-application-close", "node-applicat
 FsActs == {"node-file-create", "node-file-delete", "node-file-restore", "node-file-corrupt", "node-file-repair",
            "node-file-scan", "node-file-checkhash", "node-file-access", "node-folder-scan", "node-folder-repair",
            "node-folder-restore", "node-folder-checkhash", "node-folder-create"}
-Acts == PowerActs \cup (CASE Facet = "svc" -> SvcActs [] Facet = "app" -> AppActs [] OTHER -> FsActs)
+\* facet "ssh": a remote terminal session from the node (the client side) to a server; op = "NONE" | "OPEN" is whether the
+\* client holds a connection handle (history generator only, like "fs")
+SshActs == {"node-session-remote-login", "node-send-remote-command", "node-session-remote-logoff", "node-account-change-password"}
+Acts == PowerActs \cup (CASE Facet = "svc" -> SvcActs [] Facet = "app" -> AppActs [] Facet = "ssh" -> SshActs [] OTHER -> FsActs)
 
-InitOp == CASE Facet = "svc" -> "RUNNING" [] Facet = "app" -> "RUNNING" [] OTHER -> "ABSENT"
+InitOp == CASE Facet = "svc" -> "RUNNING" [] Facet = "app" -> "RUNNING" [] Facet = "ssh" -> "NONE" [] OTHER -> "ABSENT"
 
 Init == /\ pw = "ON" /\ pc = 0 /\ rs = FALSE
         /\ op = InitOp /\ oc = 0 /\ hs = "GOOD" /\ fc = 0 /\ act = "init"
@@ -83,7 +86,12 @@ FsReq(a) ==
       [] a = "node-folder-restore" /\ op # "ABSENT"   -> [o |-> op, c |-> RestDur, h |-> hs, f |-> 0]
       [] OTHER -> [o |-> op, c |-> oc, h |-> hs, f |-> fc]
 
-Req(a) == CASE Facet = "svc" -> SvcReq(a) [] Facet = "app" -> AppReq(a) [] OTHER -> FsReq(a)
+SshReq(a) ==
+    CASE a = "node-session-remote-login"  /\ op = "NONE" -> [o |-> "OPEN", c |-> oc, h |-> hs, f |-> fc]
+      [] a = "node-session-remote-logoff" /\ op = "OPEN" -> [o |-> "NONE", c |-> oc, h |-> hs, f |-> fc]
+      [] OTHER -> [o |-> op, c |-> oc, h |-> hs, f |-> fc]
+
+Req(a) == CASE Facet = "svc" -> SvcReq(a) [] Facet = "app" -> AppReq(a) [] Facet = "ssh" -> SshReq(a) [] OTHER -> FsReq(a)
 
 Compromise == IF Facet = "fs" THEN (IF op = "PRESENT" THEN "CORRUPT" ELSE hs)
               ELSE (IF op = "RUNNING" /\ hs \in {"GOOD", "FIXING"} THEN "COMPROMISED" ELSE hs)  \* (mid-fix too: the countdown goes stale)
@@ -107,7 +115,7 @@ TimedOp(o, k) == CASE o = "RESTARTING" /\ k = 0 -> "RUNNING"
 Step(a) ==
     LET on  == pw = "ON"
         q   == IF on THEN Req(a) ELSE [o |-> op, c |-> oc, h |-> hs, f |-> fc]
-        h1  == IF a = "red-compromise" /\ on THEN Compromise ELSE q.h
+        h1  == IF a = "red-compromise" /\ on /\ Facet # "ssh" THEN Compromise ELSE q.h
         \* the power request
         p1  == CASE a = "node-shutdown" /\ on -> IF PowDur = 0 THEN "OFF" ELSE "SD"
                  [] a = "node-reset"    /\ on -> IF PowDur = 0 THEN "OFF" ELSE "SD"
@@ -123,7 +131,7 @@ Step(a) ==
         c2  == IF p2 # p1 THEN (IF p2 = "BOOT" THEN PowDur ELSE 0) ELSE Dec(c1)
         off == p1 = "SD" /\ p2 # "SD"                     \* the node passes through OFF in this tick
         on2 == (p1 = "BOOT" /\ p2 = "ON")                   \* the node comes up in this tick
-        o0  == IF off THEN OffOp(q.o) ELSE q.o
+        o0  == IF Facet = "ssh" /\ a = "node-account-change-password" THEN "NONE" ELSE IF off THEN OffOp(q.o) ELSE q.o
         o1  == IF on2 THEN BootOp(o0) ELSE o0
         h0  == IF on2 THEN BootHs(o0, h1) ELSE h1
         live == p2 = "ON"                                   \* software gets this tick iff the node is ON after its power step
